@@ -119,12 +119,15 @@ pub fn run(out: &mut Out, thorough: bool, seed: u64, extra: &[String]) {
         let qs = ntt_primes(&mut r, n, &bits);
         if qs.len() != k { continue; }
         let t = match r.below(4) { 0 => 1u64 << r.range(1, 20), 1 => { let tb = (lg + 3).max(r.range(4, 40) as usize); hu::get_primes(2 * n as u64, tb, 1)[0].value() } 2 => 3, _ => r.range(2, 1 << 20) | 1 };
+        // every third chain ends in a prime that is 1 modulo t (t >= 3): q_last^-1 mod t = 1, the guarded fast paths of the BGV division are taken
+        let mut qs = qs;
+        if t >= 3 && r.chance(1, 3) { if let Some(p) = crate::ctx::prime_one_mod(n, t, 50, &qs) { let k1 = qs.len() - 1; qs[k1] = p; } }
         if qs.iter().any(|&q| gcd(q, t) != 1) { continue; }
         let ms: Vec<Modulus> = qs.iter().map(|&q| Modulus::new(q)).collect();
         let base = hu::RNSBase::new(&ms).unwrap();
         let tm = Modulus::new(t);
         let head = format!("{} {} {}", n, fl(&qs), t);
-        let cls = format!("n{}k{}", n, k);
+        let cls = format!("n{}k{}{}", n, k, if t >= 3 && qs.last().unwrap() % t == 1 { "-qlast1modt" } else { "" });
         let tool = match hu::RNSTool::new(n, &base, &tm) { Ok(t) => t, Err(_) => { out.case(&format!("tool_new {}", head), &cls, || "ERR:refused".to_string()); continue; } };
         out.case(&format!("tool_new {}", head), &cls, || {
             let ops = |v: &Vec<hu::MultiplyU64ModOperand>| fl(&v.iter().map(|o| o.operand).collect::<Vec<_>>());
